@@ -55,7 +55,10 @@ def regexes_for(rnd, mods):
     """(kind, pattern) drawn from the graph's own names."""
     names = [m for m in mods if m != "r"]
     m = rnd.choice(names)
-    k = rnd.choice(["anchored", "prefix", "alt", "class", "suffix", "with_subs", "nomatch", "leaf", "inner", "alt_ungrouped", "alt_ungrouped", "optional", "optional_mid", "plus", "dot_any", "icase", "lookahead", "unicode_class", "wild_alt", "wild_alt"])
+    k = rnd.choice(["anchored", "prefix", "alt", "class", "suffix", "with_subs", "nomatch", "leaf", "inner", "alt_ungrouped", "alt_ungrouped", "optional", "optional_mid", "plus", "dot_any", "icase", "lookahead", "unicode_class", "wild_alt", "wild_alt", "bare", "bare"])
+    if k == "bare":
+        # just the (escaped) name of a module: matches every name that STARTS with it, prefix siblings included
+        return k, re.escape(m)
     if k == "wild_alt":
         # ungrouped alternation after a leading wildcard: '.*x$|frag' - the second branch is matched from the start too
         m2 = rnd.choice(names)
